@@ -121,6 +121,10 @@ class Exec(Engine):
             if hasattr(CallEval, 'fn_' + f.id) or f.id in self.R.macros or f.id in self.R.funcs:
                 return False
             c = self.resolve_function(f.id)
+            if c is None:
+                d = self.R.find_class_by_name(f.id)
+                if d is not None and f'{d.key}.__init__' in self.R.contracts:
+                    return True
             return c is not None and not c.pure
         if isinstance(f, ast.Attribute):
             if f.attr in MUTATORS:
@@ -647,7 +651,13 @@ class Exec(Engine):
             if e.id in self.exc_kinds():
                 return [Outcome('raise', st, {'exc': self.new_exc(st, e.id)})]
             if st.has(e.id) and st.get(e.id).t == U('Exc'):
-                return [Outcome('raise', st, {'exc': st.get(e.id)})]
+                x = st.get(e.id)
+                if s.cause is not None:
+                    cz = Evaluator(self, st).ev(s.cause)
+                    if cz.t == U('Exc'):
+                        st.assume(self.ctx.func('exc_cause', [U('Exc')], U('Exc'))(x.z) == cz.z)
+                        st.assume(self.ctx.func('exc_has_cause', [U('Exc')], BOOL)(x.z))
+                return [Outcome('raise', st, {'exc': x})]
         if isinstance(e, ast.Attribute):
             ev = Evaluator(self, st)
             v = ev.ev(e)
@@ -790,6 +800,16 @@ class Exec(Engine):
                 c = self.method_contract_for(recv, f.attr)
         else:
             c = self.resolve_function(f.id)
+            d = self.R.find_class_by_name(f.id)
+            if d is not None and f'{d.key}.__init__' in self.R.contracts:
+                c = self.R.contracts[f'{d.key}.__init__']
+                recv = self.new_object(st, f.id)
+                binds = self.bind_args(ev, c, n, recv)
+                outs = self.settle(st, ev, n.lineno)
+                res = []
+                for o in self.apply_contract(c, binds, st, n.lineno):
+                    res.append(Outcome(o.kind, o.st, recv if o.kind == 'next' else o.val))
+                return outs + res
         if c is None:
             raise Unsupported(f'unclassified call {ast.unparse(f)}')
         binds = self.bind_args(ev, c, n, recv)
@@ -835,6 +855,9 @@ class Exec(Engine):
             et = t.args[0]
             if m in ('add', 'append'):
                 x = self.coerce(ev.ev(n.args[0]), et)
+                if t.name == 'deque':
+                    # the duplicate-free abstraction of a deque is only valid if the appended element is new
+                    ev.may_raise.append((z3.Not(z3.Select(recv.z, x.z)), 'Precondition', 'deque.append of an element already queued'))
                 new = SV(t, z3.Store(recv.z, x.z, True))
             elif m in ('remove',):
                 x = self.coerce(ev.ev(n.args[0]), et)
@@ -858,7 +881,7 @@ class Exec(Engine):
                 if m == 'pop' and not (len(n.args) == 1 and isinstance(n.args[0], ast.Constant) and n.args[0].value == 0) and t.k == 'list':
                     raise Unsupported('list.pop(i) only for i == 0')
                 x = ctx.fresh(et, 'popped')
-                ev.may_raise.append((z3.Not(ctx.set_is_empty(et, recv.z)), 'IndexError' if t.k == 'list' else 'KeyError',
+                ev.may_raise.append((z3.Not(ctx.set_is_empty(et, recv.z)), 'IndexError' if (t.k == 'list' or t.name == 'deque') else 'KeyError',
                                      ast.unparse(n)))
                 st.assume(z3.Implies(z3.Not(ctx.set_is_empty(et, recv.z)), z3.Select(recv.z, x)))
                 if t.k == 'set':
@@ -940,9 +963,29 @@ class Exec(Engine):
             else:
                 st.heap[p] = SV(cur.t, self.ctx.fresh(cur.t, p))
 
+    def new_object(self, st: State, cls_name: str) -> SV:
+        self._obj_n = getattr(self, '_obj_n', 0) + 1
+        prefix = f'new{self._obj_n}_{cls_name}'
+        self.populate_object(st, prefix, cls_name, 0)
+        for k, v in st.heap.items():
+            if k.startswith(prefix + '.'):
+                st.old.setdefault(k, v)
+        return SV(OBJ(cls_name), prefix)
+
     def apply_contract(self, c: Contract, binds: dict, st: State, line: int):
         self.count_use(c)
         cname = c.key.split(':')[1]
+        if self.cur is not None:
+            for cal, clauses in self.cur.at_call.items():
+                if cname == cal or cname.endswith('.' + cal):
+                    for cl in _as_clauses(clauses):
+                        if self.active(cl):
+                            b = dict(self.entry_binds)
+                            for nm in getattr(self.cur, 'cand_locals', ()):
+                                if st.has(nm):
+                                    b[nm] = st.get(nm)
+                            self.vc(st, self.eval_clause(st, cl, b), name=f'at[{cal}@{self.call_site_id(line)}][{cl.label()}]',
+                                    kind='ensures', line=line, serves=cl.serves)
         for cl in c.requires:
             if not self.active(cl):
                 continue
@@ -969,7 +1012,10 @@ class Exec(Engine):
                 outs.append(Outcome('raise', ex_st, {'exc': exc, 'from': c.key}))
         self.havoc(st, self.frame_paths(c, binds, st))
         rt = parse_type(c.returns)
-        res = SV(NONE, None) if rt.k == 'none' else self.fresh_sv(rt, 'ret_' + cname.split('.')[-1])
+        if rt.k == 'obj':
+            res = self.new_object(st, rt.name)
+        else:
+            res = SV(NONE, None) if rt.k == 'none' else self.fresh_sv(rt, 'ret_' + cname.split('.')[-1])
         b2 = dict(binds)
         b2['result'] = res
         for gpath, gexpr in c.ghost_exit.items():
@@ -1615,6 +1661,11 @@ class Exec(Engine):
             # an exception kind the contract does not allow
             self.vc(rest, z3.BoolVal(False), name=f'raises.undeclared[{info.get("implicit") or info.get("from") or "raise"}]',
                     kind='raises', serves=c.serves)
+
+
+def _as_clauses(xs):
+    from .contract import C
+    return [C(x) if not isinstance(x, (tuple, list)) else C(*x) for x in xs]
 
 
 class _EmptyDecl:
